@@ -404,7 +404,8 @@ def check_history(hist):
             L = h_list(op)
             built.append((op, T.AhocorasickTokenizer(extractors=L), L))
         for name, tk, lst in built:
-            key = id(tk)
+            lst = list(tk.extractors)  # "the same extractors" = the tokenizer's own list as it is now
+            key = (id(tk), tuple(id(e) for e in lst))
             if key not in refs:
                 refs[key] = [T.Tokenizer(extractors=lst).tokenize(t) for t in H_TEXTS]
             for t, want in zip(H_TEXTS, refs[key]):
